@@ -1101,6 +1101,18 @@ where
         if !self.qos2_publish_handled.is_empty() {
             self.mark_restored_session_persistent();
         }
+        if self.restoring_into_pending_resume() {
+            self.handled_before_connect = self.qos2_publish_handled.clone();
+        }
+    }
+
+    /// A server only learns from the CONNECT whose session to restore, so the restore calls may
+    /// come between the CONNECT and the CONNACK of an attempt that asked to resume. What is
+    /// restored then is the session as it was before that CONNECT.
+    fn restoring_into_pending_resume(&self) -> bool {
+        self.status == ConnectionStatus::Connecting
+            && !self.established
+            && !self.new_session_at_connect
     }
 
     /// Whether packets of the session have to be kept right now. During a connection attempt
@@ -1123,6 +1135,8 @@ where
         if self.status == ConnectionStatus::Disconnected {
             self.need_store = true;
             self.need_store_before_connect = true;
+        } else if self.restoring_into_pending_resume() {
+            self.need_store_before_connect = true;
         }
     }
 
@@ -1138,6 +1152,7 @@ where
         if !packets.is_empty() {
             self.mark_restored_session_persistent();
         }
+        let pending_resume = self.restoring_into_pending_resume();
         for packet in packets {
             // An entry of the other protocol version cannot belong to this connection's session:
             // it could neither be retransmitted nor acknowledged (and would stay stored with a
@@ -1168,6 +1183,9 @@ where
                     // A packet whose ID is already in use is skipped entirely.
                     let packet_id = p.packet_id().unwrap();
                     if self.pid_man.register_id(packet_id).is_ok() {
+                        if pending_resume {
+                            self.ids_before_connect.insert(packet_id);
+                        }
                         if qos == Qos::AtLeastOnce {
                             self.pid_puback.insert(packet_id);
                         } else {
@@ -1191,6 +1209,9 @@ where
                     // A packet whose ID is already in use is skipped entirely.
                     let packet_id = p.packet_id().unwrap();
                     if self.pid_man.register_id(packet_id).is_ok() {
+                        if pending_resume {
+                            self.ids_before_connect.insert(packet_id);
+                        }
                         if qos == Qos::AtLeastOnce {
                             self.pid_puback.insert(packet_id);
                         } else {
@@ -1208,6 +1229,9 @@ where
                     // A packet whose ID is already in use is skipped entirely.
                     let packet_id = p.packet_id();
                     if self.pid_man.register_id(packet_id).is_ok() {
+                        if pending_resume {
+                            self.ids_before_connect.insert(packet_id);
+                        }
                         self.pid_pubcomp.insert(packet_id);
                         if let Err(_e) = self.store.add(packet) {
                             error!("Failed to add packet to store: {:?}", _e);
@@ -1221,6 +1245,9 @@ where
                     // A packet whose ID is already in use is skipped entirely.
                     let packet_id = p.packet_id();
                     if self.pid_man.register_id(packet_id).is_ok() {
+                        if pending_resume {
+                            self.ids_before_connect.insert(packet_id);
+                        }
                         self.pid_pubcomp.insert(packet_id);
                         if let Err(_e) = self.store.add(packet) {
                             error!("Failed to add packet to store: {:?}", _e);
